@@ -361,6 +361,7 @@ public:
 		if (answer) // sorry already here
 			return std::make_pair(end(), false);
 
+		const size_t wptr(where - _arr); // index survives a reallocation, the pointer does not
 		if (_sz < _rsz) // we have space
 		{
 			memmove(where + 1, where, (end() - where) * sizeof(FieldTrait));
@@ -369,7 +370,6 @@ public:
 		else // we have to make space
 		{
 			iterator new_arr(new FieldTrait[_rsz = _sz + calc_reserve(_sz, _reserve)]);
-			const size_t wptr(where - _arr);
 			if (wptr > 0)
 				memcpy(new_arr, _arr, sizeof(FieldTrait) * wptr);
 			memcpy(new_arr + wptr, what, sizeof(FieldTrait));
@@ -378,7 +378,7 @@ public:
 			_arr = new_arr;
 		}
 		++_sz;
-		return std::make_pair(where, true);
+		return std::make_pair(_arr + wptr, true);
 	}
 
 	/*! Find the distance between two iterators
